@@ -462,11 +462,12 @@ func (fr *frame) writerCall(c *ssa.Call, fn *ssa.Function, args []Val) (Val, boo
 		}
 		return top, true
 	case pkg == "encoding/binary" && (recvT == "bigEndian" || recvT == "littleEndian") && (name == "Uint16" || name == "Uint32" || name == "Uint64") && len(args) == 2:
-		// reading back bytes the analysed code wrote itself (a scratch buffer):
-		// the number they spell; bytes of the input stay a named term
+		// reading bytes that are all known - written by the analysed code itself
+		// (a scratch buffer) or bound by the query: the number they spell; unknown
+		// or symbolic bytes of the input stay a named term
 		n := map[string]int{"Uint16": 2, "Uint32": 4, "Uint64": 8}[name]
 		src := args[1]
-		if src.K != KSlice || !strings.Contains(src.S, "#") || (src.Len >= 0 && src.Len < n) {
+		if src.K != KSlice || (src.Len >= 0 && src.Len < n) {
 			return Val{}, false
 		}
 		v := new(big.Int)
